@@ -1514,11 +1514,13 @@ func (c *RemoteClient) runConnection(ctx context.Context, conn net.Conn,
 	c.isConnected.Store(false)
 
 	sendsThread.Stop(ctx)
+	// Close the connection before releasing sendMessages from its handshake wait so that it can't
+	// write a carried over message to a connection that never completed its handshake.
+	conn.Close()
 	select {
 	case handshakeCompleteChannel <- nil: // ensure sendMessages is not waiting on the handshake
 	default:
 	}
-	conn.Close()
 
 	wait.Wait()
 
